@@ -35,6 +35,25 @@ CLAIMED = {
              technique="stateless model checking of the implementation + per-container history and provenance oracles", ref="§7 C12"),
  "C13": dict(text="Panic oracle on every engine harness (debug assertions on), plus the generation wrap-around family: the helping generation counter is preset 1 and 2 transactions before its wrap (through a hook), then fallback loads run against a helping writer, including the case where the wrap happens in the nested load a writer performs while helping. The unchanged tree violated this (fixed by /repo commit bdc6940, see known_findings.json).",
              technique="stateless model checking of the implementation with the transaction counter preset near its maximum; panic / abort oracle", ref="§7 C13, §8.1"),
+
+ "C14": dict(text="Explicit-state search over the public API: a plain-variable reference model defines the abstract state (per container the stored identity, multisets of live guards and owned handles, within caps); breadth-first search to closure of the capped state space; every transition's path is replayed on fresh real objects under DefaultStrategy, FillFastSlots and RwLock<()> and compared (returned identities, what every container and guard denotes, exact count equation strong + debt slots == owners, everything released at the end). Plus hand-shaped programs with S, S+1, S+2 guards around every kind of write in three release orders.",
+             technique="explicit-state model checking of a reference model with every transition replayed against the implementation (trace conformance)", ref="§7 C14",
+             note="Trusted base: the 60-line reference model in harness/src/seq.rs, std::sync::Arc's strong_count, the slot-introspection hook. Caps: 2 containers, 3 values + None, guards <= S+1 (quick) / S+2 (thorough), handles <= 2/3; the small build has 2 fast slots so the search crosses the slot limit; the shipped 8-slot build is searched depth-limited in the thorough tier."),
+ "C15": dict(text="Complete enumeration of the finite configuration space pointer kind (Arc, Rc, Option of either, sync::Weak, rc::Weak, Option<Option<Arc>>) x pointee layout (u8, usize, String, ZST, align-64, over-aligned ZST) x count state (unique, shared, with weak references, target dropped, dangling, None): raw round trip, borrow == convert, inc/dec by exactly one, empties <-> null, container round trip, container of Weak does not keep its target alive, distinct addresses. One recorded known finding (Option<Option<Arc>> Some(None)).",
+             technique="exhaustive enumeration of a finite configuration space, each element executed on the implementation", ref="§7 C15",
+             note="Trusted base: std's strong_count/weak_count observers; the element table in harness/src/seq_c15.rs. No scheduling or memory-model aspect."),
+ "C16": dict(text="Sequential part: every program over {store None/a/b/c, load of a cache / its clone / a mapped cache, clone the cache} up to depth 6 (quick) / 8 (thorough) under two strategies; each load returns the current value, every strong count equals pool + container + caches holding it. Concurrent part under the engine: a cache loading while a writer stores twice; per-cache monotonicity against the write order, never-stored identities, and the happens-before clause through a release/acquire flag.",
+             technique="exhaustive enumeration of operation sequences against a reference model + stateless model checking of the implementation for the concurrent clause", ref="§7 C16"),
+ "C17": dict(text="Every projection chain (container as Access<Arc<T>> / Access<T>, &container, Arc<container>, Map, Map of Map, ArcSwapAny::map, Box<dyn DynAccess>, AccessConvert, Constant) x number of stores before and between the derefs of one guard: the guard keeps projecting its snapshot, the snapshot stays alive exactly as long as the guard (Weak probe), the next load projects the newest value, static and dynamic dispatch agree. Concurrent part under the engine: a writer storing while a Map guard is dereferenced.",
+             technique="exhaustive enumeration of projection chains and store placements + stateless model checking for the concurrent clause", ref="§7 C17"),
+ "C18": dict(text="Fault enumeration: every point where user code runs inside the library is chosen as the panic point (rcu closure on attempt 1-3 with retries forced by a competing writer under the engine; closure after creating its result; destructor of the value replaced by store; destructor of the rejected new value / by-value current guard of compare_and_swap; destructor run by the last guard; destructor of a helped reader's candidate inside load under the engine; Map projection) x guards held x strategy. Afterwards: container value legitimate, counts exact, slots empty, follow-up operations behave. Two defects found and fixed (/repo 93929e1).",
+             technique="exhaustive fault-point enumeration, sequentially and inside bounded exhaustive schedule exploration of the implementation", ref="§7 C18", category="model_checking"),
+ "C19": dict(text="Complete truth table of `W: Send`, `W: Sync` for 15 wrapper types x 5 pointer kinds x 4 pointee Send/Sync combinations (300 instantiations), evaluated as compile-time constants in one rustc run against the current sources; oracle: W Send => P Send, W Sync => P Sync (and P Send for containers), P Send+Sync => W Send+Sync.",
+             technique="exhaustive enumeration of a finite space of generic instantiations; the deciding step per instance is rustc's trait resolution, not an execution", ref="§7 C19",
+             note="Trusted base: rustc's auto-trait resolution; the instantiation list in /verif/typecheck/src/main.rs. This is configuration-space enumeration, not schedule exploration."),
+ "C20": dict(text="Every value of a grammar {unit, bool, u8, i64, String, Option, Vec, struct} up to nesting 1 (quick) / 2 (thorough) x {ArcSwap, ArcSwapOption Some/None} x two strategies: the container's JSON equals its value's JSON, deserializing gives a container whose value equals the input with exactly one reference (plus the probing handle), round trip preserves the value; serde_test token streams for six shapes.",
+             technique="exhaustive enumeration of a bounded value grammar, each value executed through the implementation", ref="§7 C20",
+             note="Trusted base: serde_json / serde_test. No scheduling aspect."),
 }
 
 NOT_YET = {
